@@ -8,8 +8,8 @@ generated tables)
       -> <group>|<group>|…;<clock>;<available bits>;<tx counts>;<loaded time or ->;<errors>
   c16judge <mixers 0|1> <t0> <complete 0|1> <loaded time or -> <errors e.e.e or -> <answers a,a,… (- = never)> <tx n,n,…> <present bits>
       -> pass | fail
-events:  s   a:<kind position>   w:<ms>   t
-outputs: X:<kind>:<t>   L:<t>:<e.e.e or ->
+events:  s   a:<kind position>   w:<ms>   t   v:<k.k.k or -> (frame-versions table naming these kinds)
+outputs: X:<kind>:<t>   L:<t>:<e.e.e or ->   V:<kind>:<t> (request by the frame-versions handler)
 -/
 namespace PlumVerif
 open PlumVerif.Setup
@@ -22,6 +22,7 @@ def parseEv (tok : String) : Option Ev :=
   | ["a", k] => do pure (.answer (← k.toNat?))
   | ["w", d] => do pure (.wait (← d.toNat?))
   | ["t"] => some .timer
+  | ["v", ks] => do pure (.versions (← if ks = "-" then some [] else (ks.splitOn ".").mapM (·.toNat?)))
   | _ => none
 
 def showNats (sep : String) (l : List Nat) : String :=
@@ -30,6 +31,7 @@ def showNats (sep : String) (l : List Nat) : String :=
 def Out.show : Out → String
   | .tx k t => s!"X:{k}:{t}"
   | .loaded t e => s!"L:{t}:{showNats "." e}"
+  | .vtx k t => s!"V:{k}:{t}"
 
 def showGroup (g : List Out) : String :=
   if g.isEmpty then "-" else String.intercalate "," (g.map Out.show)
@@ -59,7 +61,8 @@ def setupOps : List String → Option String
     let ld := match sf.phase with
       | .loaded => s!"{sf.loadedAt};{Setup.showNats "." sf.errors}"
       | _ => "-;-"
-    pure (String.intercalate "|" (groups.map Setup.showGroup) ++ s!";{sf.now};{bits};{txs};{ld}")
+    let vtxs := Setup.showNats "," ((kinds c).map sf.vtx)
+    pure (String.intercalate "|" (groups.map Setup.showGroup) ++ s!";{sf.now};{bits};{txs};{ld};{vtxs}")
   | ["c16judge", m, t0, comp, ld, errs, ans, txs, pres] => do
     let mixers ← Setup.parseBool m
     let t0 ← t0.toNat?
